@@ -81,6 +81,7 @@ theorem merge_guard_run (fix : Bool) (es : List Event) (hw : ∀ e ∈ es, e.wf)
   cases e with
   | heal a => exact ⟨st, a, hr, merge_guard hr a n sha ok ho⟩
   | flag f => simp [step] at ho
+  | batchFailed => simp [step] at ho
   | githubFailed => simp [step] at ho
   | github s => simp [step] at ho
   | batch => simp [step] at ho
@@ -131,6 +132,7 @@ theorem only_github_sets_target (fix : Bool) (st : State) (e : Event) (hs : st.s
   cases e with
   | github s => exact absurd rfl (he s)
   | githubFailed => exact hs
+  | batchFailed => exact hs
   | flag f => cases f <;> exact hs
   | batch => simp only [step]; rw [(evBatch_numbers fix st).2.2]; exact hs
   | done id ok => simp only [step]; rw [(evDone_props st id ok).2.2]; exact hs
@@ -173,6 +175,7 @@ theorem notification_survives_until_refresh (fix : Bool) (es : List Event) (hes 
     cases e with
     | github s => exact absurd rfl (hes _ List.mem_cons_self s)
     | githubFailed => rfl
+    | batchFailed => exact h
     | flag f => cases f <;> simp [step, evFlag, h]
     | batch => simpa [step, evBatch] using h
     | done id ok => simpa [step, evDone] using h
@@ -260,6 +263,7 @@ theorem step_false_eq_true (st : State) (e : Event) (h : e = .batch → NoStaleS
       List.map_congr_left hs
     rw [this]
   | flag f => rfl
+  | batchFailed => rfl
   | githubFailed => rfl
   | github s => rfl
   | heal a => rfl
